@@ -122,6 +122,10 @@ def run_case(ctx, case, model=True):
                                                          "gearbox": case["gearbox"]})
                 rp, eng = obj.get_engine_run_point_from_power_out_kw(arg), obj.engine
             ctx.count("engine_variant", ("dual" if eng_spec.get("dual") else "single") + ("+curves" if eng_spec.get("emissions") else ""))
+            if eng_spec.get("dual"):
+                d = eng_spec["dual"]
+                ctx.count("pilot_kind", "same-kind-as-main" if (d["pilot_type"], d["pilot_origin"]) == (eng_spec["fuel_type"], eng_spec["fuel_origin"])
+                          else ("same-type-other-origin" if d["pilot_type"] == eng_spec["fuel_type"] else "other-type"))
         elif kind == "fuel_cell_system":
             obj = plants.build_electric_component(case["spec"])
             rp = obj.get_fuel_cell_run_point(power_out_kw=arg)
